@@ -4,7 +4,7 @@
      block := "(" stmt* ")"
      stmt  := E k | D d block | K n k1 late1..kn laten | O block | I c block block | W c block | P block c
             | F n block | S c "[" (block ft)* "]" block | X block | N e | B | C | R e | V | L void block
-   Output: <ref outcome>;<ref trace> TAB <tgt outcome>;<tgt trace> TAB <tokens of the compiled program> *)
+   Output: <ref outcome>;<ref trace> TAB <tgt outcome>;<tgt trace> TAB <tokens of the compiled program> TAB <accepted p> *)
 open Model
 open Zutil
 
@@ -122,7 +122,7 @@ let () =
           let r2 = tgt_sem t x0 in
           let b = Buffer.create 256 in
           toks b t;
-          res_str r ^ "\t" ^ res_str r2 ^ "\t" ^ String.trim (Buffer.contents b)
+          res_str r ^ "\t" ^ res_str r2 ^ "\t" ^ String.trim (Buffer.contents b) ^ "\t" ^ (if accepted p then "1" else "0")
         with
         | Parse m -> "!parse " ^ m
         | e -> "!exn " ^ Printexc.to_string e
